@@ -179,7 +179,7 @@ def plan(prop, tier, seed):
         data(n(50, 600)); data(n(10, 80), with_close=True, updates=True); fam(n(20, 200), scen.window_session, "window"); data(n(3, 30), big_groups=True)
         fam(n(12, 200), scen.deep_session, "deep"); fam(n(6, 60), scen.queue_full_session, "queue-full"); fam(n(10, 150), scen.renak_session, "renak"); fam(n(6, 80), scen.burst_session, "burst")
     elif prop == "C02":
-        data(n(40, 400)); data(n(12, 150), faults=False); fam(n(40, 500), scen.window_session, "window"); fam(n(25, 400), scen.refresh_session, "refresh"); fam(n(4, 40), scen.queue_full_session, "queue-full")
+        data(n(40, 400)); data(n(12, 150), faults=False); fam(n(40, 500), scen.window_session, "window"); fam(n(25, 400), scen.refresh_session, "refresh"); fam(n(4, 40), scen.queue_full_session, "queue-full"); fam(n(8, 100), scen.ack256_session, "ack256")
     elif prop == "C03":
         data(n(50, 500), p_rel=0.5); data(n(20, 250), with_close=True, updates=True); data(n(5, 60), big_groups=True); fam(n(30, 400), scen.wrap_partial_session, "wrap-partial"); fam(n(8, 60), scen.queue_full_session, "queue-full", groups=True); fam(n(10, 150), scen.bad_group_session, "bad-groups")
     elif prop == "C04":
@@ -187,7 +187,7 @@ def plan(prop, tier, seed):
         for _ in range(n(25, 400)):
             G.append(twin_replay(S()))
         fam(n(25, 400), scen.hs_replay_session, "hs-replay")
-        fam(n(12, 200), scen.deep_session, "deep"); fam(n(20, 300), scen.renak_session, "renak")
+        fam(n(12, 200), scen.deep_session, "deep"); fam(n(20, 300), scen.renak_session, "renak"); fam(n(5, 60), scen.stale_group_session, "stale-group")
     elif prop == "C05":
         for _ in range(n(80, 1500)):
             s = S()
@@ -241,7 +241,7 @@ def plan(prop, tier, seed):
         for _ in range(n(20, 300)):
             G.append([("hs", scen.handshake_session(S(), hostile=False))])
         fam(n(15, 200), scen.hostile_session, "hostile"); fam(n(15, 200), scen.bad_group_session, "bad-groups")
-        fam(n(10, 150), scen.many_channels_session, "many-channels")
+        fam(n(10, 150), scen.many_channels_session, "many-channels"); fam(n(10, 150), scen.fill_ack_session, "fill-ack")
     elif prop == "C17":
         for _ in range(n(12, 150)):
             G.append(twin_fill(S(), "data"))
